@@ -857,7 +857,8 @@ theorem killFinish_no_sleeper (rec : Rec) (u p : Nat) (esc : Bool) (wt : Waiter)
   | true =>
     have h1 := sendSignalProcess_narrow L u p 9 true s h0
     cases hok : (sendSignalProcess u p 9 true s).1
-    · exact ⟨_, _, C03_escalation_denied rec u p wt s hok, Or.inr rfl, h1.1, h1.2.1⟩
+    · have h2 := L.setObjStopping p false _ h1
+      exact ⟨_, _, C03_escalation_denied rec u p wt s hok, Or.inr rfl, h2.1, h2.2.1⟩
     · refine ⟨_, _, C03_escalation_is_sigkill rec u p wt s hok, Or.inl rfl, ?_⟩
       have h2 := L.setObjStopping p false _ h1
       have h3 := objStop_narrow L.toLeafN0 p _ h2
